@@ -220,6 +220,24 @@ func c17Families(thorough bool) []c17Member {
 		src := hdr + fmt.Sprintf("func F(a int) int {\n\tvar count uint = 1 << %d\n\tone := 1\n\tlimit := one << count\n\tt := 0\n\tfor i := 0; i < limit; i++ {\n\t\tt += i + a\n\t}\n\treturn t\n}\n", n)
 		out = append(out, c17Member{"loop-bound-shifted-by-variable-count", n, src, ""})
 	}
+	// F1c: ONE call that passes the same value n times; in the new version the last argument differs
+	// (a value is listed among its own users once per operand slot)
+	for _, n := range []int{50, 200, 400} {
+		mk := func(last string) string {
+			var sb strings.Builder
+			sb.WriteString(hdr + "func manyArgs(")
+			for i := 0; i < n; i++ {
+				fmt.Fprintf(&sb, "a%d, ", i)
+			}
+			sb.WriteString("z int) int { return z }\n\nfunc F(a int) int {\n\treturn manyArgs(")
+			for i := 0; i < n; i++ {
+				sb.WriteString("a, ")
+			}
+			sb.WriteString(last + ")\n}\n")
+			return sb.String()
+		}
+		out = append(out, c17Member{"call-with-one-value-repeated", n, mk("a"), mk("1")})
+	}
 	// F4: block count up to beyond the size guard
 	for _, n := range []int{500, 1000, 2000, 2600} {
 		var sb strings.Builder
